@@ -285,8 +285,8 @@ def r3_numeric_key_order(repo=None, rid="C12.R3"):
         for n in ast.walk(am):
             if isinstance(n, ast.Assign) and any(isinstance(t, ast.Name) and t.id == v for t in n.targets) and n.lineno < loops[0].lineno:
                 src = norm(ast.unparse(n.value))
-                if any(k in src for k in ("np.int64", "np.uint64", "'int64'", "dtype=int", "int(")) and any(
-                        k in src for k in ("fromiter", "astype", "np.array", "np.asarray", "int(")):
+                if any(k in src for k in ("np.int64", "np.uint64", "'int64'", "dtype=int", "int(", "map(int,")) and any(
+                        k in src for k in ("fromiter", "astype", "np.array", "np.asarray", "int(", "map(int,")):
                     integer = True
                 if (src.startswith("np.sort(") or src.startswith("sorted(")) and integer:
                     ordered = True
